@@ -18,6 +18,7 @@ import (
 )
 
 type Engine struct {
+	implCache map[string][]int
 	repo      string
 	prog      *ssa.Program
 	pkgs      []*packages.Package
@@ -290,13 +291,60 @@ func (e *Engine) implementsPred(x *Exec, tag string, iface types.Type) string {
 	if !ok {
 		return "false"
 	}
-	name := "implements|" + typeKey(iface)
-	if !x.declared[name] {
-		x.declared[name] = true
-		x.sess.Decl("(declare-fun " + smtSym(name) + " (Int) Bool)")
+	// closed world: the dynamic type is one of the named types (or pointers to them) of the loaded
+	// program; the assertion succeeds iff that type implements the interface
+	ids := e.implementers(typeKey(iface), it)
+	if len(ids) == 0 {
+		return "false"
 	}
-	_ = it
-	return "(and (not (= " + tag + " 0)) (" + smtSym(name) + " " + tag + "))"
+	var alts []string
+	for _, id := range ids {
+		alts = append(alts, "(= "+tag+" "+strconv.Itoa(id)+")")
+	}
+	if len(alts) == 1 {
+		return alts[0]
+	}
+	return "(or " + strings.Join(alts, " ") + ")"
+}
+
+func (e *Engine) implementers(key string, it *types.Interface) []int {
+	e.mu.Lock()
+	if e.implCache == nil {
+		e.implCache = map[string][]int{}
+	}
+	if ids, ok := e.implCache[key]; ok {
+		e.mu.Unlock()
+		return ids
+	}
+	e.mu.Unlock()
+	var ids []int
+	for _, tp := range e.tpkgs {
+		sc := tp.Scope()
+		for _, n := range sc.Names() {
+			tn, ok := sc.Lookup(n).(*types.TypeName)
+			if !ok || tn.IsAlias() {
+				continue
+			}
+			T := tn.Type()
+			if _, isIface := T.Underlying().(*types.Interface); isIface {
+				continue
+			}
+			if named, ok := T.(*types.Named); ok && named.TypeParams().Len() > 0 {
+				continue
+			}
+			if types.Implements(T, it) {
+				ids = append(ids, e.typeID(T))
+			}
+			if pt := types.NewPointer(T); types.Implements(pt, it) {
+				ids = append(ids, e.typeID(pt))
+			}
+		}
+	}
+	sort.Ints(ids)
+	e.mu.Lock()
+	e.implCache[key] = ids
+	e.mu.Unlock()
+	return ids
 }
 
 var pureMethodNames = map[string]bool{
